@@ -36,6 +36,7 @@ const Row kRows[] = {
   {OP_ACCESSORS, {"accessors", C_ELEM, A_NONE, 0, true, false, false}},
   {OP_CONSTRUCT, {"construct", C_ELEM, A_NONE, 0, true, false, false}},
   {OP_STREAM, {"os<<X", C_ELEM, A_NONE, 0, true, false, false}},
+  {OP_HOLD, {"held-results", C_ELEM, A_ELEM, 0, true, false, true}},
 
   {OP_EXP, {"exp", C_TAN, A_NONE, 1, true, false, false}},
   {OP_RETRACT, {"retract", C_TAN, A_NONE, 1, true, false, false}},
@@ -66,6 +67,7 @@ const Row kRows[] = {
   {OP_JT_MUL, {"J*t", C_TAN, A_NONE, 0, true, false, true}},
   {OP_T_ACCESSORS, {"t.accessors", C_TAN, A_NONE, 0, true, false, false}},
   {OP_T_STREAM, {"os<<t", C_TAN, A_NONE, 0, true, false, false}},
+  {OP_T_HOLD, {"t.held-results", C_TAN, A_TAN, 0, true, false, true}},
 
   {OP_IDENTITY, {"Identity", C_STATIC, A_NONE, 0, true, false, true}},
   {OP_ZERO, {"Zero", C_STATIC, A_NONE, 0, true, false, true}},
@@ -112,6 +114,7 @@ const Row kRows[] = {
   {OP_TM_COEFFWRITE, {"t.coeffs()(i)=", C_MUT_T, A_TAN, 0, false, false, false}},
   {OP_TM_SETVEE, {"t.setVee", C_MUT_T, A_TAN, 0, false, false, false}},
   {OP_TM_BLOCKSET, {"t.blocks=", C_MUT_T, A_TAN, 0, false, false, false}},
+  {OP_TM_MOVE_ASSIGN, {"t=move(u)", C_MUT_T, A_TAN, 0, false, false, false}},
 };
 
 OpInfo g_table[OP__END];
